@@ -297,7 +297,10 @@ CLAIMED = {
   text="Proof tier (counted): VariationalStrategy.forward (whitened) executed symbolically with the Cholesky factor and its triangular solve as "
        "callee contracts (A = SOLVE(L, Kzx), L L^T = Kzz + jitter I): the model is evaluated once on [Z; X], the factorised matrix is Kzz + jitter I, "
        "the solve's right-hand side is Kzx, mean = mu_X + A^T m~, covariance = Kxx + jitter I + A^T (S~ - I) A (Delta: A^T (-I) A) in both "
-       "trace_mode forms, for symbolic m, n, batch; prior_distribution = N(0, I) of the variational shape; kl_divergence() = "
+       "trace_mode forms, for symbolic m, n, batch; UnwhitenedVariationalStrategy.forward (evaluation mode, X != Z, both the Cholesky and the "
+       "plain-operator branch) with LinearOperator.solve(rhs[, lhs]) and root_decomposition as callee contracts: joint prior at [Z; X], the solved matrix "
+       "is Kzz + jitter_val I, INV = [(m - mu_Z)^T; R^T] SOLVE(Kzx) in one two-sided solve, mean = mu_X + INV[0], covariance = Kxx - Kxz SOLVE(Kzx) "
+       "+ INV[1:]^T INV[1:] (Delta: no root rows); prior_distribution = N(0, I) of the variational shape; kl_divergence() = "
        "KL(variational_distribution || prior_distribution); Cholesky / MeanField / Delta variational distributions return N(m, tril(C) tril(C)^T) / "
        "N(m, diag s^2) / a point mass at m. Bounded tier (not counted): every (strategy x distribution) pair (standard, unwhitened, CIQ at tight "
        "tolerance, batch-decoupled, orthogonally decoupled, grid-interpolation, LMC, independent multitask; Cholesky, mean-field, delta, natural, "
